@@ -166,15 +166,15 @@ Proof. exact done_selects_new_sync_peer. Qed.
 (* ---- competing branches ---- *)
 (* after a reply the reported tip carries at least the work of every connected header stored - so a competing branch is
    adopted as soon as ONE reply brings a header that overtakes the tip (composition with C01: Valid stores) *)
-Theorem C06_fork_one_reply : forall f next hs s rc fin s' rc' fin', Valid s -> pos_hdrs hs ->
-  hloop f next s rc fin hs = HDone s' rc' fin' ->
+Theorem C06_fork_one_reply : forall f cps next hs s rc fin s' rc' fin', Valid s -> pos_hdrs hs ->
+  hloop f cps next s rc fin hs = HDone s' rc' fin' ->
   Valid s' /\ tip_cum s <= tip_cum s' /\ forall r, In r s' -> orph r = false -> cum r <= tip_cum s'.
 Proof. exact fork_one_reply. Qed.
 
 (* the statement's caveat: a reply without any longest-chain header ends the conversation *)
 Theorem C06_stops_when_no_longest : forall cfg st p c hs s' rc,
   aget p (d_states st) = Some c -> d_hfm st = true ->
-  hloop (c_forb cfg) (d_next st) (d_store st) false None hs = HDone s' rc None ->
+  hloop (c_forb cfg) (sm_cps cfg) (d_next st) (d_store st) false None hs = HDone s' rc None ->
   snd (on_headers cfg st p hs) = [] /\ d_next (fst (on_headers cfg st p hs)) = d_next st.
 Proof. exact stops_when_no_longest. Qed.
 
